@@ -128,17 +128,19 @@ def userinfo (netloc : Str) : Option Str × Option Str :=
     | (u, none) => (some u, none)
   | (none, _) => (none, none)
 
+/-- the host / port split of `_hostinfo` on the text after the last `@` -/
+def hostPortOf (hi : Str) : Str × Str :=
+  match partitionChar '[' hi with
+  | (_, some bracketed) =>
+    let r := partitionChar ']' bracketed
+    (r.1, ((partitionChar ':' (r.2.getD [])).2).getD [])
+  | (_, none) =>
+    let r := partitionChar ':' hi
+    (r.1, r.2.getD [])
+
 /-- `_hostinfo`: (raw hostname, port text or none) -/
 def hostinfo (netloc : Str) : Str × Option Str :=
-  let hi := (rpartitionChar '@' netloc).2
-  let hp : Str × Str :=
-    match partitionChar '[' hi with
-    | (_, some bracketed) =>
-      let r := partitionChar ']' bracketed
-      (r.1, ((partitionChar ':' (r.2.getD [])).2).getD [])
-    | (_, none) =>
-      let r := partitionChar ':' hi
-      (r.1, r.2.getD [])
+  let hp := hostPortOf (rpartitionChar '@' netloc).2
   (hp.1, if hp.2.isEmpty then none else some hp.2)
 
 /-- `int(port)` for ASCII digits -/
